@@ -56,10 +56,11 @@ func VerifC08SortTags() {
 // depend on the map's iteration order.
 func VerifC08EdgeSort() {
 	k := vBound("c08.k", 2)
-	names := []string{"a", "b", "c", "d"}
+	// destinations 1 and 2 share the function name and differ only in the line
+	infos := []NodeInfo{{Name: "a"}, {Name: "b", File: "x.go", Lineno: 1}, {Name: "b", File: "x.go", Lineno: 2}, {Name: "c"}}
 	nodes := make([]*Node, 4)
 	for i := range nodes {
-		nodes[i] = &Node{Info: NodeInfo{Name: names[i]}}
+		nodes[i] = &Node{Info: infos[i]}
 	}
 	// k edges with distinct (src,dest): n0->n1, n0->n2, n1->n2
 	pairs := [][2]int{{0, 1}, {0, 2}, {1, 2}}
@@ -78,7 +79,7 @@ func VerifC08EdgeSort() {
 		if pi == 0 {
 			first = out
 			for _, e := range out {
-				vObserve(e.Src.Info.Name, e.Dest.Info.Name)
+				vObserve(e.Src.Info.Name, e.Dest.Info.Name, e.Dest.Info.Lineno)
 			}
 			continue
 		}
